@@ -7,8 +7,12 @@ import (
 	"encoding/json"
 	"fmt"
 	"os"
+	"reflect"
 	"runtime"
 	"sort"
+	"strconv"
+	"sync"
+	"time"
 
 	"verif/sim/hist"
 	"verif/sim/prng"
@@ -77,8 +81,64 @@ func index(es []vrt.Entry) Impl {
 	return m
 }
 
+// Liveness watchdog of the run binary. The reference completes every play within its
+// effect budget; generated code that spins without reaching an effect point (or without
+// ever returning from an advance) would keep the process busy for ever. A play that is
+// still running after HangLimit of wall clock ends the process with exit code 4, the name
+// of the function and of the implementation under play, and all goroutine stacks. (Wall
+// clock only decides WHEN the process gives up, never a verdict that depends on speed: a
+// play that terminates takes milliseconds.)
+var live struct {
+	mu    sync.Mutex
+	fn    string
+	impl  string
+	since time.Time
+	on    bool
+}
+
+var implNames = map[uintptr]string{}
+
+func hangLimit() time.Duration {
+	if v, err := strconv.Atoi(os.Getenv("VSIM_HANG_SECONDS")); err == nil && v > 0 {
+		return time.Duration(v) * time.Second
+	}
+	return 120 * time.Second
+}
+
+func watchdog() {
+	limit := hangLimit()
+	for {
+		time.Sleep(500 * time.Millisecond)
+		live.mu.Lock()
+		stuck := live.on && time.Since(live.since) > limit
+		fn, impl := live.fn, live.impl
+		live.mu.Unlock()
+		if stuck {
+			buf := make([]byte, 1<<20)
+			buf = buf[:runtime.Stack(buf, true)]
+			fmt.Fprintf(os.Stderr, "\nVSIM-HANG func=%s impl=%s limit=%v\n%s\n", fn, impl, limit, buf)
+			os.Exit(4)
+		}
+	}
+}
+
+func setFunc(name string) {
+	live.mu.Lock()
+	live.fn = name
+	live.mu.Unlock()
+	fmt.Fprintf(os.Stderr, "VSIM-FUNC %s\n", name)
+}
+
 // Play runs a scenario on one implementation.
 func Play(impl Impl, sc *Scenario, o PlayOpt) (res Run) {
+	live.mu.Lock()
+	live.impl, live.since, live.on = implNames[reflect.ValueOf(impl).Pointer()], time.Now(), true
+	live.mu.Unlock()
+	defer func() {
+		live.mu.Lock()
+		live.on = false
+		live.mu.Unlock()
+	}()
 	ctx := vrt.NewCtx()
 	ctx.PanicAt = sc.PanicAt
 	ctx.Fuel = o.Fuel
@@ -209,6 +269,7 @@ type Spec struct {
 	ArgVecs  int
 	MaxFault int
 	Only     string    `json:",omitempty"`
+	Skip     []string  `json:",omitempty"` // functions left out (they brought an earlier run of this binary down)
 	Replay   *Scenario `json:",omitempty"`
 	Variants []string  `json:",omitempty"` // replay the scenario once per entry-name prefix (shrinker)
 	Digest   map[string]uint64
@@ -482,6 +543,10 @@ func Main(ref, opt, unopt []vrt.Entry) {
 	}
 	rn := &runner{spec: sp, impls: map[string]Impl{"ref": index(ref), "opt": index(opt), "unopt": index(unopt)},
 		res: &Result{Counters: map[string]int{}, Sets: map[string][]uint64{}, Skipped: map[string]string{}}}
+	for n, im := range rn.impls {
+		implNames[reflect.ValueOf(im).Pointer()] = n
+	}
+	go watchdog()
 	if len(sp.Variants) > 0 {
 		// shrinker: the same scenario on every variant of the program
 		base := sp.Replay
@@ -495,6 +560,7 @@ func Main(ref, opt, unopt []vrt.Entry) {
 			if !ok {
 				continue
 			}
+			setFunc(pre + sp.Only)
 			before := len(rn.res.Mismatches)
 			func() {
 				defer func() {
@@ -521,6 +587,14 @@ func Main(ref, opt, unopt []vrt.Entry) {
 		if sp.Only != "" && sp.Only != name {
 			continue
 		}
+		skip := false
+		for _, sk := range sp.Skip {
+			skip = skip || sk == name
+		}
+		if skip {
+			continue
+		}
+		setFunc(name)
 		e := rn.impls["opt"][name]
 		rn.res.Funcs++
 		if sp.Replay != nil {
